@@ -48,7 +48,9 @@ def replay_path_batch(case):
             chans.append((names, path))
     if chans:
         # names longer than 255 bytes (one of them in multi-byte characters)
-        for g_, c_ in (("G" * 256, "c" * 300), ("x", "\u00e9" * 200), ("y" * 70000, "z")):
+        # ... and names that differ only in letter case or in a trailing blank (distinct names, distinct objects)
+        for g_, c_ in (("G" * 256, "c" * 300), ("x", "\u00e9" * 200), ("y" * 70000, "z"),
+                       ("Data", "v"), ("Summary", "s"), ("data", "V"), ("data ", "v"), ("Data", "V")):
             pth = "/'" + g_ + "'/'" + c_ + "'"
             if pth not in seen:
                 seen.add(pth)
@@ -89,7 +91,8 @@ def replay_path_batch(case):
                         gt.group, gt.properties = nm[0], {"seen": i}
                         ct.group, ct.channel, ct.data, ct.properties = nm[0], nm[1], data, {"id": "c%d" % i}
                     w.write_segment([gt, ct])
-            _check_file(TdmsFile.read(io.BytesIO(buf2.getvalue())), sub, "end-to-end-reused-objects", fails)
+            _check_file(TdmsFile.read(io.BytesIO(buf2.getvalue())), sub, "end-to-end-reused-objects", fails,
+                        group_order="first")
             n += len(sub)
         except Exception as ex:  # noqa
             fails.append(({"kind": "path", "level": "end-to-end-file", "exception": type(ex).__name__},
@@ -98,7 +101,7 @@ def replay_path_batch(case):
     return {"n": n, "keys": keys, "fails": fails, "validated": len(items)}
 
 
-def _check_file(f, chans, level, fails, count=True):
+def _check_file(f, chans, level, fails, count=True, group_order="sorted"):
     for i, (nm, path) in enumerate(chans):
         probs = []
         try:
@@ -113,6 +116,19 @@ def _check_file(f, chans, level, fails, count=True):
             probs.append("%s: %s" % (type(ex).__name__, ex))
         if probs:
             fails.append(({"kind": "path", "level": level}, {"names": nm, "path": path, "problems": probs}))
+    # groups come in the order in which the file first names them: a writer call that has to add the group objects
+    # itself adds them in sorted order; the streaming producer declares each group when it first uses it
+    if count:
+        want_groups = []
+        for nm, _ in chans:
+            if nm[0] not in want_groups:
+                want_groups.append(nm[0])
+        if group_order == "sorted":
+            want_groups = sorted(want_groups)
+        got_groups = [g.name for g in f.groups() if g.name in set(want_groups)]
+        if got_groups != want_groups:
+            fails.append(({"kind": "path", "level": level + "-group-order"},
+                          {"expected": [x[:40] for x in want_groups][:12], "observed": [x[:40] for x in got_groups][:12]}))
     total = sum(len(g.channels()) for g in f.groups())
     if count and total != len(chans):
         fails.append(({"kind": "path", "level": level + "-count"}, {"expected_channels": len(chans), "observed": total}))
